@@ -301,6 +301,8 @@ func regexEquiv(p1, p2 string) (bool, string, error) {
 	if err != nil {
 		return false, "", err
 	}
+	// FindStringSubmatch searches: a pattern that does not start with ^ matches anywhere in the line
+	r1, r2 = searchForm(r1), searchForm(r2)
 	n1, err := nfaOf(r1)
 	if err != nil {
 		return false, "", err
@@ -352,4 +354,40 @@ func topLevelShape(re *syntax.Regexp) []string {
 	}
 	walk(re)
 	return out
+}
+
+// startsAnchored: every match of re begins at the start of the text.
+func startsAnchored(re *syntax.Regexp) bool {
+	switch re.Op {
+	case syntax.OpBeginText, syntax.OpBeginLine:
+		return true
+	case syntax.OpCapture:
+		return startsAnchored(re.Sub[0])
+	case syntax.OpConcat:
+		for _, s := range re.Sub {
+			if startsAnchored(s) {
+				return true
+			}
+			if s.Op != syntax.OpEmptyMatch {
+				return false
+			}
+		}
+	case syntax.OpAlternate:
+		for _, s := range re.Sub {
+			if !startsAnchored(s) {
+				return false
+			}
+		}
+		return len(re.Sub) > 0
+	}
+	return false
+}
+
+// searchForm gives an unanchored pattern the meaning it has under a search: any prefix may precede it.
+func searchForm(re *syntax.Regexp) *syntax.Regexp {
+	if startsAnchored(re) {
+		return re
+	}
+	any := &syntax.Regexp{Op: syntax.OpStar, Sub: []*syntax.Regexp{{Op: syntax.OpAnyChar}}}
+	return &syntax.Regexp{Op: syntax.OpConcat, Sub: []*syntax.Regexp{any, re}}
 }
